@@ -15,7 +15,10 @@ import vcommon as vc
 PID = "C10"
 PAYLOADS = [None, 14.5, 17, -9223372036854775808, 18446744073709551615, "NaN", "Infinity", "", "x", True, [], {},
             [1, "NaN", None, {"a": []}], {"a": {"b": {"c": [1.5, "-Infinity", None]}}, "type": "zzz", "1": 1}, 1e300, -0.0,
-            "AQID", [[[[]]]], {"": None}]
+            "AQID", [[[[]]]], {"": None},
+            # doubles that are exactly representable in 32 bits but have a long 64-bit decimal, alone and nested (mid-range
+            # exponents only: serde_json without float_roundtrip may parse 17-digit numbers at extreme exponents 1 ulp off)
+            0.10000000149011612, 2.000000238418579, [0.30000001192092896, {"x": 0.699999988079071}], {"f": 1.100000023841858}]
 GOOD = {"circle": [1.5, "NaN", 3, -0.0], "name": ["x", "", "NaN"]}
 BAD = {"circle": ["abc", True, [1], {"q": 1}, None], "name": [12, False, [], {}, None]}
 
@@ -185,15 +188,23 @@ def run(tier, seed):
     states, transitions, runs, cov, replayed, nontrivial, samples = union_enum_replay(PID, tier, seed, out, rng)
     # listed variants behave identically in the two configurations (ListedBehaveIdentically)
     docs = []
-    listed = ['{"type":"circle","circle":1.5}', '{"circle":"NaN","type":"circle"}', '{"type":"name","name":"x"}', '"RED"', '"BLUE"']
+    import vgen
+    grammar = ['"%s"' % v for v in vgen.GRAMMAR_VALUES]
+    listed = ['{"type":"circle","circle":1.5}', '{"circle":"NaN","type":"circle"}', '{"type":"name","name":"x"}', '"RED"', '"BLUE"'] + grammar
     for i, d in enumerate(listed):
         for tag in ("a", "b"):
-            docs.append(json.dumps({"id": "%d.%s" % (i, tag), "cfg": tag, "ty": "Color" if d.startswith('"') else "Shape", "doc": d}))
+            docs.append(json.dumps({"id": "%d.%s" % (i, tag), "cfg": tag, "ty": "Grammar" if d in grammar else "Color" if d.startswith('"') else "Shape", "doc": d}))
     res = {o["id"]: o for o in vc.ndjson(vc.harness("vgen", ["wire"], stdin="\n".join(docs) + "\n"))}
     for i, d in enumerate(listed):
         a, b = res["%d.a" % i], res["%d.b" % i]
         if a["server"] != b["server"] or a["client"] != b["client"] or "ok" not in a["client"]:
             out.violation("C10:listed-differs", "listed value %s behaves differently under exhaustive" % d, {"doc": d})
+        elif d.startswith('"') and "Unknown" in a["client"].get("debug", ""):
+            out.violation("C10:listed-as-unknown", "listed enum value %s is held as %s" % (d, a["client"]["debug"]), {"doc": d})
+        elif d.startswith('"') and (a["client"]["ok"] != d or a["server"].get("ok") != d):
+            # a listed enum value is itself on the wire: it re-serialises to the declared name (an Unknown(..) holder would too,
+            # so the PLAIN view in C12 and as_str are checked there)
+            out.violation("C10:listed-renamed", "listed enum value %s re-serialises as %s" % (d, a["client"]["ok"]), {"doc": d})
         replayed += 2
     out.coverage = {
         "states": states, "transitions": transitions, "traces_validated_against_impl": replayed,
